@@ -53,7 +53,7 @@ package interp
 //@ props C28
 
 //@ func Runner.readLine
-//@ props C28
+//@ props C28 C23
 //@ loop 1 invariant [esc-means-nonempty] implies(esc, len(line) > 0)
 
 // ---- C33 call sites / C28: array element assignment. The Variable invariant (wfArr) is assumed for values that
